@@ -1,7 +1,9 @@
 package auth
 
 // VerifValidRedirectURI / VerifValidSignature expose the two unexported predicates to the /verif harness.
-func VerifValidRedirectURI(uri string, rootDomains []string) bool { return validRedirectURI(uri, rootDomains) }
+func VerifValidRedirectURI(uri string, rootDomains []string) bool {
+	return validRedirectURI(uri, rootDomains)
+}
 func VerifValidSignature(redirectURI, sig, ts, secret string) bool {
 	return validSignature(redirectURI, sig, ts, secret)
 }
